@@ -593,6 +593,49 @@ func multiKeyCases(r *lib.Rng) []valCase {
 	return out
 }
 
+// scheme strings that contain / start with / end with a genuine scheme of the key's type: the scheme of a
+// key must BE one of the schemes of its type
+var genuineSchemes = map[string][]string{"rsa": {"rsassa-pss-sha256"}, "ed25519": {"ed25519"},
+	"ecdsa": {"ecdsa-sha2-nistp224", "ecdsa-sha2-nistp256", "ecdsa-sha2-nistp384", "ecdsa-sha2-nistp521"}}
+
+func nearMissSchemes(g string) []string {
+	return []string{"x" + g, g + "7", "x" + g + "x", g + g, strings.ToUpper(g), " " + g, g + " ", "\n" + g, g + "\n",
+		g + "-with-sha1", "none+" + g, g + "|" + g, "^" + g + "$"}
+}
+
+func schemeCases(r *lib.Rng) []valCase {
+	var out []valCase
+	for _, kt := range []string{"rsa", "ed25519", "ecdsa"} {
+		for gi, g := range genuineSchemes[kt] {
+			for vi, sc := range nearMissSchemes(g) {
+				k := intoto.Key{KeyID: hexStr(r, 8), KeyType: kt, Scheme: sc, KeyVal: intoto.KeyVal{Public: "00ff"}}
+				desc := fmt.Sprintf("%s key with scheme %q (genuine: %q)", kt, sc, g)
+				target := []string{"key", "pubkey"}[(gi+vi)%2]
+				kk := k
+				out = append(out, valCase{klass: "key-scheme-nearmiss-" + kt, desc: desc, target: target, v: valInput{Key: &kk}, want: "ERR"})
+				if vi%4 == gi%4 {
+					// the same key in a layout, through ValidateMetablock
+					l := intoto.Layout{Type: "layout", Expires: "2030-01-02T03:04:05Z"}
+					m := map[string]intoto.Key{k.KeyID: k}
+					switch (gi + vi) % 3 {
+					case 0:
+						l.Keys = m
+					case 1:
+						l.RootCas = m
+					default:
+						l.IntermediateCas = m
+					}
+					out = append(out, valCase{klass: "key-scheme-nearmiss-" + kt, desc: desc + " in a layout", target: "metablock", v: valInput{Layout: &l}, want: "ERR"})
+				}
+			}
+			// the genuine scheme itself is accepted
+			k := intoto.Key{KeyID: hexStr(r, 8), KeyType: kt, Scheme: g, KeyVal: intoto.KeyVal{Public: "00ff"}}
+			out = append(out, valCase{klass: "key-scheme-genuine", desc: kt + " key with scheme " + g, target: "pubkey", v: valInput{Key: &k}, want: "OK"})
+		}
+	}
+	return out
+}
+
 // ---------- histories: the verdict on a document must not depend on what was validated before ----------
 
 // pairs of rules with the same blank-joined text but different token boundaries: the first is
@@ -730,6 +773,7 @@ func valCases(r *lib.Rng, w *lib.Writer, n int, thorough bool) {
 	// always part of the run (not subject to the sampling quota)
 	defer historyCases(r.Fork(), w)
 	all = append(all, multiKeyCases(r.Fork())...)
+	all = append(all, schemeCases(r.Fork())...)
 	for _, c := range all {
 		v := c.v
 		in := input{Kind: "validate", Target: c.target, Val: &v, Desc: c.klass}
